@@ -41,7 +41,7 @@ def const_int(e):
     if e is None:
         return None
     k = e.k
-    if k == "ParenExpr":
+    if k in ("ParenExpr", "ConstantExpr"):
         return const_int(e.kids[0]) if e.kids else None
     if k in ("ImplicitCastExpr", "CStyleCastExpr"):
         v = const_int(e.kids[-1]) if e.kids else None
